@@ -11,9 +11,12 @@ def _bump(ev, key):
 
 
 def _bump_obs(ev, key):
-    m = list(ev["obs"][key]["m"]) or [0]
-    m[0] = (m[0] + 1) % 32768
-    ev["obs"][key] = dict(ev["obs"][key], m=m)
+    """the vault's asset balance (and the total_assets it reports) one off after a deposit"""
+    for holder in (ev["obs"], ev["obs"]["asset"]):
+        k = key if holder is ev["obs"] else "v"
+        m = list(holder[k]["m"]) or [0]
+        m[0] = (m[0] + 1) % 32768
+        holder[k] = dict(holder[k], m=m)
     return ev
 
 
